@@ -699,6 +699,11 @@ class StmtMixin(CallMixin):
                 g = SpecEval(self, st, st.entry, {}, facts).clause(text)
             except SpecError as exc:
                 if "unknown name" in str(exc):
+                    missing = str(exc).split("unknown name")[-1].strip().split()[0]
+                    if missing not in getattr(self, "fn_names", {missing}):
+                        # the function binds no variable of that name anywhere: the sidecar invariant is out of date
+                        # (a renamed local), which is not evidence about the property - undecided, never a violation
+                        raise UnsupportedError(f"loop invariant speaks about `{missing}`, which the function binds nowhere (renamed local?): {text}")
                     # a variable the invariant speaks about does not exist (yet) in this state: the invariant does not hold here
                     self.oblige(kind, st, z3.BoolVal(False), f"{desc}: {text} [{str(exc).split('SpecError:')[-1].strip()}: not defined at this point]",
                                 line, extra={"clause": text, "definite": True})
